@@ -197,6 +197,7 @@ class Scen:
         except Exception as e:  # noqa: BLE001
             self.results[name] = ("error", type(e).__name__, str(e)[:60])
         self.times[name] = self.loop.time() - t0
+        self.end_abs = dict(getattr(self, "end_abs", {}), **{name: self.loop.time()})
 
     # ---------------------------------------------------------------- seams
     async def resolve(self, host, port):
@@ -227,6 +228,7 @@ class Scen:
     # ---------------------------------------------------------------- environment
     def _serve(self):
         """Peers answer every complete request except the main one, which stalls at its phase."""
+        self.last_io_abs = self.loop.time()      # bytes may move now: a per-read timer legitimately starts afresh
         acted = False
         for idx, (ct, st, peer) in enumerate(self.conns):
             if st.deliverable():
@@ -388,8 +390,13 @@ class Scen:
                    f"that timeout kind does not cover the upload")
         elif main and main[0] == "timeout":
             bound = self.T + (1.0 if self.T > 5 else 0.0) + 1e-6 + (2.0 if case.get("slow_consumer") else 0.0)   # noticed at its next read
-            if self.times["main"] > bound and not case.get("upload_after_100"):      # (there the waiting only starts when the upload ends)
-                self.P(f"timeout-late:{self.kind}:{self.phase}", f"{self.kind}={self.T}: failed after {self.times['main']:g}s (bound {bound:g})")
+            waited = self.times["main"]
+            if self.kind == "sock_read" and getattr(self, "last_io_abs", None) is not None and "main" in getattr(self, "end_abs", {}):
+                # sock_read bounds the wait for the *next* bytes: it is measured from the last moment bytes moved
+                # (a schedule may let the clock run and then deliver a segment just before the deadline)
+                waited = min(waited, self.end_abs["main"] - self.last_io_abs)
+            if waited > bound and not case.get("upload_after_100"):      # (there the waiting only starts when the upload ends)
+                self.P(f"timeout-late:{self.kind}:{self.phase}", f"{self.kind}={self.T}: failed after {waited:g}s of silence (bound {bound:g})")
         elif main and main[0] == "ok" and case.get("slow_consumer"):
             self.P(f"total-timeout-not-enforced:{case['slow_consumer']}", f"total={self.T}: the exchange took {self.times.get('main'):g}s (a slow consumer) and ended normally with {main[2]!r}")
         elif main and main[0] == "ok" and covered:
